@@ -152,15 +152,19 @@ func (pe *programExecutor) executeDropSectors(instr *rhp3.InstrDropSectors, log 
 	if err != nil {
 		return nil, nil, fmt.Errorf("failed to read sector count: %w", err)
 	}
+	if count > pe.updater.SectorCount() {
+		return nil, nil, fmt.Errorf("failed to drop sectors: invalid sector count %v", count)
+	}
 	// pay for execution
 	cost := pe.priceTable.DropSectorsCost(count)
 	if err := pe.payForExecution(cost, costToAccountUsage(cost)); err != nil {
 		return nil, nil, fmt.Errorf("failed to pay for instruction: %w", err)
 	}
 
-	// construct the proof before updating the roots
+	// construct the proof before updating the roots. An empty range has no
+	// proof.
 	var proof []types.Hash256
-	if instr.ProofRequired {
+	if instr.ProofRequired && count > 0 {
 		proofStart := time.Now()
 		proof = rhp2.BuildSectorRangeProof(pe.updater.SectorRoots(), pe.updater.SectorCount()-count, pe.updater.SectorCount()) // TODO: add rhp3 proof methods
 		log.Debug("built proof", zap.Duration("duration", time.Since(proofStart)))
@@ -205,14 +209,24 @@ func (pe *programExecutor) executeReadOffset(instr *rhp3.InstrReadOffset, log *z
 	if err != nil {
 		return nil, nil, fmt.Errorf("failed to read length: %w", err)
 	}
+	sectorIndex := offset / rhp2.SectorSize
+	relOffset := offset % rhp2.SectorSize
+
+	// validate the offset and length
+	switch {
+	case length > rhp2.SectorSize-relOffset:
+		return nil, nil, fmt.Errorf("read offset %v length %v is out of bounds", relOffset, length)
+	case instr.ProofRequired && length == 0:
+		return nil, nil, fmt.Errorf("read length cannot be 0")
+	case instr.ProofRequired && (relOffset%rhp2.LeafSize != 0 || length%rhp2.LeafSize != 0):
+		return nil, nil, fmt.Errorf("read offset (%d) and length (%d) must be multiples of %d", relOffset, length, rhp2.LeafSize)
+	}
+
 	// pay for execution
 	cost := pe.priceTable.ReadOffsetCost(length)
 	if err := pe.payForExecution(cost, costToAccountUsage(cost)); err != nil {
 		return nil, nil, fmt.Errorf("failed to pay for instruction: %w", err)
 	}
-
-	sectorIndex := offset / rhp2.SectorSize
-	relOffset := offset % rhp2.SectorSize
 
 	root, err := pe.updater.SectorRoot(sectorIndex)
 	if err != nil {
@@ -255,7 +269,7 @@ func (pe *programExecutor) executeReadSector(instr *rhp3.InstrReadSector, log *z
 	switch {
 	case length == 0:
 		return nil, nil, fmt.Errorf("read length cannot be 0")
-	case offset+length > rhp2.SectorSize:
+	case offset > rhp2.SectorSize || length > rhp2.SectorSize-offset:
 		return nil, nil, fmt.Errorf("read length %v is out of bounds", length)
 	case instr.ProofRequired && (offset%rhp2.LeafSize != 0 || length%rhp2.LeafSize != 0):
 		return nil, nil, fmt.Errorf("read offset (%d) and length (%d) must be multiples of %d", offset, length, rhp2.LeafSize)
@@ -737,7 +751,7 @@ func (pe *programExecutor) commit(s *rhp3.Stream) error {
 
 // Sector returns a sector and its root from the program's data.
 func (pd programData) Sector(offset uint64) (*[rhp2.SectorSize]byte, error) {
-	if offset+rhp2.SectorSize > uint64(len(pd)) {
+	if n := uint64(len(pd)); offset > n || n-offset < rhp2.SectorSize {
 		return nil, fmt.Errorf("sector offset %v is out of bounds", offset)
 	}
 
@@ -747,7 +761,7 @@ func (pd programData) Sector(offset uint64) (*[rhp2.SectorSize]byte, error) {
 
 // Bytes returns a slice of bytes from the program's data.
 func (pd programData) Bytes(offset, length uint64) ([]byte, error) {
-	if offset+length > uint64(len(pd)) {
+	if n := uint64(len(pd)); offset > n || length > n-offset {
 		return nil, fmt.Errorf("bytes offset %v and length %v are out of bounds", offset, length)
 	}
 	return pd[offset : offset+length], nil
@@ -755,7 +769,7 @@ func (pd programData) Bytes(offset, length uint64) ([]byte, error) {
 
 // Uint64 returns a little-endian uint64 from the program's data.
 func (pd programData) Uint64(offset uint64) (uint64, error) {
-	if offset+8 > uint64(len(pd)) {
+	if n := uint64(len(pd)); offset > n || n-offset < 8 {
 		return 0, fmt.Errorf("uint64 offset %v is out of bounds", offset)
 	}
 	return binary.LittleEndian.Uint64(pd[offset:]), nil
@@ -763,15 +777,15 @@ func (pd programData) Uint64(offset uint64) (uint64, error) {
 
 // Hash returns a hash from the program's data.
 func (pd programData) Hash(offset uint64) (types.Hash256, error) {
-	if offset+32 > uint64(len(pd)) {
+	if n := uint64(len(pd)); offset > n || n-offset < 32 {
 		return types.Hash256{}, fmt.Errorf("hash offset %v is out of bounds", offset)
 	}
 	return *(*types.Hash256)(pd[offset:]), nil
 }
 
 func (pd programData) UnlockKey(offset, length uint64) (types.UnlockKey, error) {
-	if offset+length > uint64(len(pd)) {
-		return types.UnlockKey{}, fmt.Errorf("unlock key offset %v is out of bounds", offset)
+	if n := uint64(len(pd)); length < 16 || offset > n || length > n-offset {
+		return types.UnlockKey{}, fmt.Errorf("unlock key offset %v and length %v are out of bounds", offset, length)
 	}
 
 	var key types.UnlockKey
@@ -781,7 +795,7 @@ func (pd programData) UnlockKey(offset, length uint64) (types.UnlockKey, error) 
 }
 
 func (pd programData) Signature(offset uint64) (types.Signature, error) {
-	if offset+64 > uint64(len(pd)) {
+	if n := uint64(len(pd)); offset > n || n-offset < 64 {
 		return types.Signature{}, fmt.Errorf("signature offset %v is out of bounds", offset)
 	}
 	return *(*types.Signature)(pd[offset:]), nil
